@@ -174,6 +174,9 @@ func UpdateWebSocketHeader(secWebSocketKey, protocol string) []byte {
 	return []byte(webSocketResponseHeaderStr)
 }
 
+// wsMaxPayloadLength 读取websocket帧时，允许的最大包体长度
+const wsMaxPayloadLength = 16 * 1024 * 1024
+
 func ReadWsPayload(r *bufio.Reader) ([]byte, error) {
 	var h WsHeader
 
@@ -229,6 +232,9 @@ func ReadWsPayload(r *bufio.Reader) ([]byte, error) {
 		h.MaskKey = bele.BeUint32(buf)
 	}
 
+	if h.PayloadLength > wsMaxPayloadLength {
+		return nil, fmt.Errorf("websocket payload too large. length=%d", h.PayloadLength)
+	}
 	payload := make([]byte, h.PayloadLength)
 	_, err = io.ReadFull(r, payload)
 	if err != nil {
